@@ -249,6 +249,27 @@ fn planted_keys<V: Fv>(ctx: &Ctx, count: usize, rep: &mut Report) {
     rep.merge(r);
 }
 
+/// sk_from_bytes + sign + verify as the FIRST crate operations of a fresh process, by several
+/// threads at once (see cold.rs).
+pub fn cold_start(ctx: &Ctx, rep: &mut Report) {
+    let (k5, _) = pool::keys::<F512>(ctx.seed, "c01-cold", 2);
+    let (k10, _) = pool::keys::<F1024>(ctx.seed, "c01-cold", 1);
+    let mut keys: Vec<Vec<String>> = vec![];
+    for k in &k5 {
+        keys.push(vec!["512".into(), hex(&F512::sk_to_bytes(&k.sk)), hex(&F512::pk_to_bytes(&k.pk))]);
+    }
+    for k in &k10 {
+        keys.push(vec!["1024".into(), hex(&F1024::sk_to_bytes(&k.sk)), hex(&F1024::pk_to_bytes(&k.pk))]);
+    }
+    if keys.is_empty() {
+        rep.inconclusive("no keys".into());
+        return;
+    }
+    let kk = &keys;
+    super::cold::parent(ctx, "C01", &["sign-verify"], &[1], ctx.sz(300, 3000), &|i| kk[i % kk.len()].clone(), rep);
+    rep.require("cold_start_processes", 60);
+}
+
 pub fn matrix(ctx: &Ctx, rep: &mut Report) {
     planted_keys::<F1024>(ctx, ctx.sz(64, 600), rep);
     planted_keys::<F512>(ctx, ctx.sz(16, 200), rep);
